@@ -707,10 +707,17 @@ impl Context {
         code: &'a str,
         code_source: CodeSource,
     ) -> Result<(Vec<typed_ast::Statement<'a>>, InterpreterResult)> {
+        // The list of imported modules is part of the session state as well: if this input
+        // fails at any stage, modules that were imported by it must be importable again.
+        let imported_modules_old = self.resolver.imported_modules.clone();
+
         let statements = self
             .resolver
             .resolve(code, code_source.clone())
-            .map_err(NumbatError::ResolverError)?;
+            .map_err(|err| {
+                self.resolver.imported_modules = imported_modules_old.clone();
+                NumbatError::ResolverError(err)
+            })?;
 
         let prefix_transformer_old = self.prefix_transformer.clone();
 
@@ -730,6 +737,7 @@ impl Context {
             //     >>> fn f(h_) = 1     # <-- here we want to use 'f' again
             //
             self.prefix_transformer = prefix_transformer_old.clone();
+            self.resolver.imported_modules = imported_modules_old.clone();
         }
 
         let transformed_statements = result?;
@@ -754,6 +762,7 @@ impl Context {
             //
             self.prefix_transformer = prefix_transformer_old.clone();
             self.typechecker = typechecker_old.clone();
+            self.resolver.imported_modules = imported_modules_old.clone();
 
             if self.load_currency_module_on_demand
                 && let Err(NumbatError::TypeCheckError(TypeCheckError::UnknownIdentifier(
@@ -828,6 +837,7 @@ impl Context {
             self.prefix_transformer = prefix_transformer_old;
             self.typechecker = typechecker_old;
             self.interpreter = interpreter_old;
+            self.resolver.imported_modules = imported_modules_old;
         }
 
         let result = result.map_err(|err| NumbatError::RuntimeError(*err))?;
